@@ -240,17 +240,6 @@ impl<T: Send> MpmcShared<T> {
     Err(TrySendError::Full(item))
   }
 
-  /// Remove a (possibly still queued) async receiver record. A registered future
-  /// that is polled again without having been notified (a spurious poll) can
-  /// complete straight from the buffer while its record is still linked; the
-  /// record points into the future and must not outlive it.
-  pub(crate) fn unlink_async_receiver(&self, state_ptr: *const AtomicU8) {
-    let mut guard = self.internal.lock();
-    guard
-      .waiting_async_receivers
-      .retain(|w| w.state != state_ptr);
-  }
-
   /// A receiver that was notified (`STATE_SUCCESS_SPACE`: an item was queued for
   /// it and it was unlinked from the wait list) but gives up without receiving -
   /// its future was dropped - hands the notification to the next waiting
@@ -350,10 +339,22 @@ impl<T: Send> MpmcShared<T> {
   }
 
   pub(crate) fn try_recv_core(&self) -> Result<T, TryRecvError> {
+    self.try_recv_core_as(std::ptr::null())
+  }
+
+  /// `try_recv_core` on behalf of an async receiver whose wait record `own` may
+  /// still be queued (a registered future polled again without having been
+  /// notified). If the call resolves, the record is unlinked UNDER THE SAME LOCK:
+  /// it points into the future, which is about to complete and be freed, and
+  /// while it stays queued a sender can spend its one notification on it.
+  pub(crate) fn try_recv_core_as(&self, own: *const AtomicU8) -> Result<T, TryRecvError> {
     let mut guard = self.internal.lock();
 
     // --- Priority 1: Check the main buffer first (Preserves strict FIFO) ---
     if let Some(item) = guard.pop_front() {
+      if !own.is_null() {
+        guard.waiting_async_receivers.retain(|w| w.state != own);
+      }
       if self.capacity > 0 {
         let mut i = 0;
         while i < guard.waiting_async_senders.len() {
@@ -402,6 +403,9 @@ impl<T: Send> MpmcShared<T> {
     }
 
     if guard.sender_count == 0 {
+      if !own.is_null() {
+        guard.waiting_async_receivers.retain(|w| w.state != own);
+      }
       return Err(TryRecvError::Disconnected);
     }
 
@@ -513,10 +517,24 @@ impl<T: Send> MpmcShared<T> {
     out: &mut Vec<T>,
     max: usize,
   ) -> Result<usize, TryRecvError> {
+    self.try_recv_batch_core_as(std::ptr::null(), out, max)
+  }
+
+  /// Batch counterpart of [`try_recv_core_as`](Self::try_recv_core_as).
+  pub(crate) fn try_recv_batch_core_as(
+    &self,
+    own: *const AtomicU8,
+    out: &mut Vec<T>,
+    max: usize,
+  ) -> Result<usize, TryRecvError> {
     if max == 0 {
       return Ok(0);
     }
     let mut guard = self.internal.lock();
+    if !own.is_null() && (guard.len() > 0 || guard.sender_count == 0) {
+      // This call is going to resolve (items, or Disconnected): unlink first.
+      guard.waiting_async_receivers.retain(|w| w.state != own);
+    }
     let mut got = 0;
 
     // --- Priority 1: Drain the main buffer first (FIFO preserved) ---
@@ -597,7 +615,7 @@ impl<T: Send> MpmcShared<T> {
       return Poll::Ready(Ok(0));
     }
     'poll_loop: loop {
-      match self.try_recv_batch_core(out, max) {
+      match self.try_recv_batch_core_as(state_ptr, out, max) {
         Ok(k) => return Poll::Ready(Ok(k)),
         Err(TryRecvError::Disconnected) => return Poll::Ready(Err(RecvError::Disconnected)),
         Err(TryRecvError::Empty) => {}
@@ -647,7 +665,7 @@ impl<T: Send> MpmcShared<T> {
     state_ptr: *const AtomicU8,
   ) -> Poll<Result<T, RecvError>> {
     'poll_loop: loop {
-      match self.try_recv_core() {
+      match self.try_recv_core_as(state_ptr) {
         Ok(item) => {
           return Poll::Ready(Ok(item));
         }
